@@ -9,6 +9,10 @@ spec/Merkle.tla, table "c03"; driver vd-merkle c03.
   3. The same rows are evaluated again CONCURRENTLY (16 and 11 goroutines, two seeded orders, several repetitions; the node
      calls these functions from p2p/sync and consensus goroutines): a row that is right alone and wrong next to other calls is a
      violation (c03:root-differs-under-concurrent-calls).
+  4. Block producer: SoloService.makeBlock (verif export) is driven with a stub transaction-pool actor over pools of 0..N fresh
+     transactions mixed with 0/1/3 transactions the incremental validator knows as already packed; the produced header's
+     TransactionsRoot must equal the reference root term evaluated over the block's OWN transaction list, and the block must
+     pass BlockFromRawBytes.
 """
 from checks.merkle_common import table, cfg_text, summary, load_replay
 
@@ -34,6 +38,10 @@ def run(ctx):
         if not s:
             ctx.fail("driver printed no summary")
         total += s["evaluations"]
+        if lab == "id":
+            ctx.cov["producer_blocks"] = s.get("producer_blocks", 0)
+            if s.get("producer_blocks", 0) < 30:
+                ctx.fail("block producer was driven only %s times" % s.get("producer_blocks"))
         ctx.cov["table_rows"] = ctx.cov.get("table_rows", 0) + len(rows)
         distinct += s["distinct"]
         for o in out:
